@@ -32,7 +32,11 @@ Inductive op :=
 | OAdvance (ms : Z)                        (* time passes *)
 | OPoke (v : bulk) (ttl : option Z)        (* a foreign client writes the key directly *)
 | OTtl                                     (* observe the key's remaining time to live (PTTL) *)
-| OFault (i : nat) (rel : bool) (r : reply).
+| OFault (i : nat) (rel : bool) (r : reply)
+| OAcquireCtx (i : nat) (deadline : option Z).
+      (* AcquireCtx with a request context: [deadline] = ms left until the context's deadline (None:
+         no deadline), the context being alive during the call.  The lease does NOT depend on it:
+         the step is OAcquire's (Props.lease_independent_of_context). *)
       (* STORE FAULT: instance i's Acquire (rel = false) / Release (rel = true) whose command is
          answered [r] by a faulty store / connection instead of being executed *)
 
@@ -84,7 +88,7 @@ Fixpoint set_secs (i : nat) (secs : Z) (ls : list inst) : list inst :=
 
 Definition step (key : bulk) (s : state) (o : op) : state * obs :=
   match o with
-  | OAcquire i =>
+  | OAcquire i | OAcquireCtx i _ =>
     match nth_error (insts s) i with
     | Some l => let '(st', r) := acquire key l (store s) in (mkState st' (insts s), r)
     | None => (s, RU)
@@ -142,7 +146,7 @@ Definition a_seen (a : astate) : option (bulk * option Z) :=
 
 Definition sp_step (a : astate) (o : op) : astate * obs :=
   match o with
-  | OAcquire i =>
+  | OAcquire i | OAcquireCtx i _ =>
     match nth_error (ainsts a) i with
     | None => (a, RU)
     | Some l =>
